@@ -193,11 +193,12 @@ def Obj.function (fdef : Option Id) (envs : List Id) : Obj :=
       | some d => envs.map (fun e => ⟨false, e⟩) ++ [⟨false, d⟩]
       | none => [] }
 open Gen.GC in
-/-- janet_mark_funcenv after janet_env_maybe_detach: still on the stack of a fiber that can run again → the fiber;
+/-- janet_mark_funcenv after janet_env_maybe_detach: still on the stack of a fiber that can run again → the fiber
+(through `janet_mark`, so that fiber → frame function → environment → fiber chains are cut by the depth guard);
 otherwise (detached, or the fiber is finished and the slots are copied out) → the captured values -/
 def Obj.funcenv (onStack : Option Id) (fiberFinished : Bool) (values : List Val) : Obj :=
   { kind := memFuncEnv, strong := match onStack with
-      | some f => if fiberFinished then vals values else [⟨false, f⟩]
+      | some f => if fiberFinished then vals values else [⟨true, f⟩]
       | none => vals values }
 open Gen.GC in
 def Obj.funcdef (constants : List Val) (defs : List Id) (source name : Option Id) (symbols : List Id) : Obj :=
